@@ -20,7 +20,9 @@ def agreement(path, unreferenced_is_violation=True, check_schema=True):
         fp = rg.columns[0].file_path
         if not fp:
             return ("no_file_path", "a row group of _metadata has no file_path")
-        others = sorted({str(c.file_path) for c in rg.columns} - {str(fp)})
+        def _s(x):
+            return x.decode("utf8", "replace") if isinstance(x, (bytes, bytearray)) else str(x)
+        others = sorted({_s(c.file_path) for c in rg.columns} - {_s(fp)})
         if others:
             # (this library follows the first chunk's path only; any other reader follows each chunk's own)
             return ("chunk_paths", "the column chunks of one row group point at different files: %r and %r" % (fp, others))
